@@ -1533,6 +1533,19 @@ func (e *Entry) dup() *Entry {
 		ne.ListAttr = &la
 	}
 
+	// The input and output of an rpc or action are children too.
+	if e.RPC != nil {
+		ne.RPC = &RPCEntry{}
+		if e.RPC.Input != nil {
+			ne.RPC.Input = e.RPC.Input.dup()
+			ne.RPC.Input.Parent = &ne
+		}
+		if e.RPC.Output != nil {
+			ne.RPC.Output = e.RPC.Output.dup()
+			ne.RPC.Output.Parent = &ne
+		}
+	}
+
 	return &ne
 }
 
